@@ -646,9 +646,23 @@ func (rr *runRec) doOp(client, idx int, op Op) {
 		res = fmt.Sprintf("%d,%v,%v,%v,%d", b.Current(), b.Completed(), b.Aborted(), b.IsRunning(), b.ID())
 	case "barwait":
 		b.Wait()
+	case "barwaitdone":
+		if !b.IsRunning() {
+			b.Wait()
+		}
 	case "traverse":
 		// the callback runs in the bar's goroutine, possibly after TraverseDecorators returned
 		b.TraverseDecorators(func(decor.Decorator) {})
+	case "proxywrite":
+		if pw := b.ProxyWriter(io.Discard); pw != nil {
+			n, _ := pw.Write(make([]byte, int(op.N)))
+			pw.Close()
+			res = fmt.Sprint(n)
+		} else {
+			res = "nil"
+		}
+	case "avgadjust":
+		b.DecoratorAverageAdjust(time.Now().Add(-time.Second))
 	case "proxyread":
 		if pr := b.ProxyReader(strings.NewReader(strings.Repeat("x", int(op.N)))); pr != nil {
 			n, _ := io.Copy(io.Discard, pr)
